@@ -48,3 +48,5 @@ func (s *ringSuite) do(t []string) string {
 	}
 	return t[0] + " bad-op"
 }
+
+func init() { register("ring", newRingSuite) }
